@@ -750,6 +750,8 @@ func RunCompiled(inv Invocation, exePath string, errlog *log.Logger) int {
 	}
 	if inv.Debug {
 		c.Env = append(c.Env, "MAGEFILE_DEBUG=1")
+	} else {
+		c.Env = append(c.Env, "MAGEFILE_DEBUG=0")
 	}
 	if inv.GoCmd != "" {
 		c.Env = append(c.Env, fmt.Sprintf("MAGEFILE_GOCMD=%s", inv.GoCmd))
